@@ -12,6 +12,7 @@ package main
 import (
 	"bytes"
 	"context"
+	"encoding/csv"
 	"encoding/json"
 	"errors"
 	"fmt"
@@ -28,6 +29,7 @@ import (
 
 	"github.com/getkin/kin-openapi/openapi3"
 	"github.com/getkin/kin-openapi/openapi3filter"
+	yaml3 "github.com/oasdiff/yaml3"
 
 	"kinverif/internal/hx"
 )
@@ -35,24 +37,30 @@ import (
 func init() {
 	hx.Register(&hx.Prop{
 		ID: "C06",
-		Rule: "exhaustive: (A) every set of ≤3 declared media-type keys out of 9 (exact, with parameters, type/*, */*, no-slash) × 16 Content-Type texts × accept/reject schema patterns × required; " +
+		Rule: "exhaustive: (A) every set of ≤3 declared media-type keys out of 10 (exact, with one and with two parameters, type/*, */*, no-slash) × 23 Content-Type texts (also several ';' segments, empty segments) × accept/reject schema patterns × required; " +
 			"(B) object schemas with a readOnly/nullable/typed property, a writeOnly property, every required subset, additionalProperties nil/true/false × 16 object values × ExcludeReadOnlyValidations; " +
 			"(B2) the same features declared inside a member of allOf/anyOf/oneOf (× member/top-level required × 4 member layouts × 16 values × the option), not, nested compositions, null against compositions; " +
 			"blank and white-space padded bodies × 9 content-type situations × required; " +
 			"(C) urlencoded: 2 properties of every primitive/array type × 7 field texts each × nullable/required × encodings; (C2) properties declared inside allOf/anyOf/oneOf members (also nested, also twice) × 5 encodings × 6 texts; " +
-			"(C3) property schemas that are compositions themselves × 8 field situations; (D) multipart part lists, also against allOf schemas; " +
-			"then a seeded random stream of nested schemas with compositions × schema-directed values (valid and mutated) × JSON renderings (whitespace, duplicate keys, trailing data, blank) × raw/malformed bodies × media-type sets × headers (also a second header value) × MultiError. " +
-			"A case is non-trivial when the model reports at least one non-default branch (selection level, decoder, outcome class, read-only handling, composition keywords, value shape).",
+			"(C3) property schemas that are compositions themselves × 8 field situations; (D) multipart part lists (JSON, plain, YAML, CSV, binary parts, content types with several parameters), also against allOf schemas and with per-property encodings (contentType, style); " +
+			"(F) YAML (21 texts × 3 content types × 3 keys × 6 schemas × options) and CSV bodies (10 texts × 3 × 3 × 5); " +
+			"(E) default-setting: one object schema with property a ∈ {plain, readOnly, writeOnly} × type × default (none / integer / string) × nullable, b with/without default, every required subset, additionalProperties × 8 values × ExcludeReadOnlyValidations × SkipSettingDefaults; (E1b) minProperties × maxProperties × defaults; " +
+			"(E2) defaults inside allOf/anyOf/oneOf members × 7 sibling members (require / forbid / re-declare read-only / additionalProperties false …) × 3 top levels × 5 values × both options; (E3) nested defaults (object defaults completed by their own defaults, items, defaults carrying read-only members, defaults on composition-valued properties) × 17 values; " +
+			"(E4) defaults under media types without body encoder (urlencoded, multipart, text/plain, octet-stream) and under the six JSON media types; " +
+			"then a seeded random stream of nested schemas with compositions, defaults (conforming and not) and property counts × schema-directed values (valid and mutated) × JSON renderings (whitespace, duplicate keys, trailing data, blank) × raw/malformed bodies × media-type sets × headers (also a second header value, several parameters) × MultiError × SkipSettingDefaults. " +
+			"A case is non-trivial when the model reports at least one non-default branch (selection level, decoder, outcome class, read-only handling, composition keywords, default handling, value shape).",
 		Exhaustive: true,
 		Gen:        genC06,
 		Run:        runC06,
 		Compare:    cmpC06,
 		Shrink:     shrinkC06,
 		Assumptions: []string{
-			"schemas range over the fragment type/nullable/readOnly/writeOnly/minLength/maximum/properties/required/additionalProperties(bool)/items/not/oneOf/anyOf/allOf (no discriminator, no default); the full validator is property C01",
+			"schemas range over the fragment type/nullable/readOnly/writeOnly/minLength/maximum/properties/required/additionalProperties(bool)/items/not/oneOf/anyOf/allOf/minProperties/maxProperties/default (no discriminator); the full validator is property C01",
 			"numbers in bodies are integers |n| ≤ 10^6 and n+0.5 (exact in float64); number texts in forms are decimal [+-]digits or [+-]digits.5 without leading zeros, or non-numeric",
-			"encoding/json, net/url.ParseQuery, mime and mime/multipart are trusted: what they make of the body text is an input of the model",
-			"array properties of form bodies carry items; per-property styles only form/spaceDelimited/pipeDelimited on arrays; object-typed properties inside composition members of a form schema, one name declared as integer and as number, YAML/CSV/zip decoders and nested form parts are outside the model and not generated",
+			"encoding/json, net/url.ParseQuery, mime, mime/multipart, yaml3 and encoding/csv are trusted: what they make of the body text is an input of the model; YAML texts stay inside the JSON data model (no timestamps, no non-string keys)",
+			"array properties of form bodies carry items; per-property styles only form/spaceDelimited/pipeDelimited on arrays; object-typed properties inside composition members of a form schema, one name declared as integer and as number, the zip decoder and form decoders nested inside multipart parts are outside the model and not generated",
+			"defaults below `not` (the partial mutations of the failing visit stay in the value) and, under a media type without body encoder, defaults at nesting depth ≥ 2 that fire are outside the model and not generated",
+			"where a default decides the verdict (caseNeutral false) the oracle is the two-phase reading (completed value) for composition-free schemas; for schemas with compositions only implementation vs model is compared",
 		},
 	})
 }
@@ -283,8 +291,15 @@ func partsView(text, ct string) any {
 		if err != nil {
 			return nil
 		}
-		out = append(out, map[string]any{"name": part.FormName(), "ct": part.Header.Get("Content-Type"),
-			"text": string(b), "json": jsonView(string(b))})
+		pv := map[string]any{"name": part.FormName(), "ct": part.Header.Get("Content-Type"),
+			"text": string(b), "json": jsonView(string(b))}
+		switch c06Base(part.Header.Get("Content-Type")) {
+		case "application/yaml", "application/x-yaml":
+			pv["yaml"] = yamlView(string(b))
+		case "text/csv":
+			pv["csv"] = csvView(string(b))
+		}
+		out = append(out, pv)
 	}
 	return out
 }
@@ -296,11 +311,68 @@ func c06Base(ct string) string {
 	return ct
 }
 
+// yamlView: what yaml3 makes of the text (first document), in case notation; nil = error.
+func yamlView(text string) any {
+	var v any
+	if err := yaml3.NewDecoder(strings.NewReader(text)).Decode(&v); err != nil {
+		return nil
+	}
+	return map[string]any{"v": goToJ(v)}
+}
+
+// csvView: the records encoding/csv reads from the text; nil = error.
+func csvView(text string) any {
+	r := csv.NewReader(strings.NewReader(text))
+	out := []any{}
+	for {
+		rec, err := r.Read()
+		if err == io.EOF {
+			break
+		}
+		if err != nil {
+			return nil
+		}
+		fs := []any{}
+		for _, f := range rec {
+			fs = append(fs, f)
+		}
+		out = append(out, fs)
+	}
+	return out
+}
+
+// c06HasX: the value contains something outside the case notation (a YAML timestamp, a non-string key …).
+func c06HasX(v any) bool {
+	switch x := v.(type) {
+	case map[string]any:
+		if _, ok := x["x"]; ok {
+			return true
+		}
+		for _, e := range x {
+			if c06HasX(e) {
+				return true
+			}
+		}
+	case []any:
+		for _, e := range x {
+			if c06HasX(e) {
+				return true
+			}
+		}
+	}
+	return false
+}
+
 // c06Body computes the views of a body text under a Content-Type header.
 func c06Body(text, ct string) map[string]any {
 	b := map[string]any{"text": text, "json": jsonView(text), "form": formView(text), "parts": nil}
-	if c06Base(ct) == "multipart/form-data" {
+	switch c06Base(ct) {
+	case "multipart/form-data":
 		b["parts"] = partsView(text, ct)
+	case "application/yaml", "application/x-yaml":
+		b["yaml"] = yamlView(text)
+	case "text/csv":
+		b["csv"] = csvView(text)
 	}
 	return b
 }
@@ -380,7 +452,57 @@ func c06Schema(j any) *openapi3.SchemaRef {
 	for _, x := range jlist(m["allOf"]) {
 		s.AllOf = append(s.AllOf, c06Schema(x))
 	}
+	if n, ok := jnum(m["minProps"]); ok && n > 0 {
+		s.MinProps = uint64(n)
+	}
+	if m["maxProps"] != nil {
+		if n, ok := jnum(m["maxProps"]); ok {
+			u := uint64(n)
+			s.MaxProps = &u
+		}
+	}
+	if d, ok := m["dflt"]; ok && d != nil {
+		s.Default = jToGo(d) // what the loader makes of a `default` in a JSON document (numbers: float64)
+	}
 	return s.NewRef()
+}
+
+// jToGo: a value in case notation as the Go value encoding/json (without UseNumber) yields.
+func jToGo(v any) any {
+	switch x := v.(type) {
+	case nil:
+		return nil
+	case bool:
+		return x
+	case map[string]any:
+		if n, ok := x["i"]; ok {
+			k, _ := jnum(n)
+			return float64(k)
+		}
+		if n, ok := x["h"]; ok {
+			k, _ := jnum(n)
+			return float64(k) + 0.5
+		}
+		if s, ok := x["s"]; ok {
+			return fmt.Sprint(s)
+		}
+		if a, ok := x["a"]; ok {
+			l := []any{}
+			for _, e := range jlist(a) {
+				l = append(l, jToGo(e))
+			}
+			return l
+		}
+		if o, ok := x["o"]; ok {
+			mm := map[string]any{}
+			for _, kv := range jlist(o) {
+				p := jlist(kv)
+				mm[fmt.Sprint(p[0])] = jToGo(p[1])
+			}
+			return mm
+		}
+	}
+	return nil
 }
 
 func c06Encodings(v any) map[string]*openapi3.Encoding {
@@ -391,7 +513,7 @@ func c06Encodings(v any) map[string]*openapi3.Encoding {
 	out := map[string]*openapi3.Encoding{}
 	for _, e := range l {
 		m := e.(map[string]any)
-		enc := &openapi3.Encoding{Style: jstr(m, "style")}
+		enc := &openapi3.Encoding{Style: jstr(m, "style"), ContentType: jstr(m, "contentType")}
 		if b, ok := m["explode"].(bool); ok {
 			enc.Explode = &b
 		}
@@ -434,7 +556,8 @@ func runC06(c hx.Case) any {
 		}
 	}
 	in := &openapi3filter.RequestValidationInput{Request: req,
-		Options: &openapi3filter.Options{ExcludeReadOnlyValidations: jbool(c, "exro"), MultiError: jbool(c, "multi")}}
+		Options: &openapi3filter.Options{ExcludeReadOnlyValidations: jbool(c, "exro"), MultiError: jbool(c, "multi"),
+			SkipSettingDefaults: jbool(c, "skipDefaults")}}
 	verr := openapi3filter.ValidateRequestBody(context.Background(), in, rb)
 	out := map[string]any{"ok": verr == nil, "outcome": c06Classify(verr)}
 	if verr != nil {
@@ -481,6 +604,8 @@ func c06Classify(err error) string {
 		return "decodeErr"
 	case strings.HasPrefix(re.Reason, "doesn't match schema"):
 		return "schemaErr"
+	case re.Reason == "rewriting failed":
+		return "rewriteErr"
 	}
 	return "other:" + re.Reason
 }
@@ -532,6 +657,12 @@ func cmpC06(c hx.Case, impl any, reply map[string]any) hx.Verdict {
 			v.Detail += fmt.Sprintf(" decoder failed (%v) but the body encodes %s", idec, canonJ(sdec["v"]))
 		}
 	}
+	// under default-setting the request-side reading of the property decides the verdict where defaults are neutral;
+	// for composition-free schemas whose defaults decide, the driver's oracle is the two-phase reading (the completed
+	// value satisfies the schema); where neither applies (compositions with firing defaults): I vs M only
+	if applies, ok := spec["applies"].(bool); ok && !applies {
+		return v
+	}
 	if jbool(im, "ok") != jbool(spec, "accept") {
 		v.IS = false
 		v.Detail += fmt.Sprintf(" verdict: impl %s (%s), spec accept=%v", jstr(im, "outcome"), jstr(im, "msg"), jbool(spec, "accept"))
@@ -558,11 +689,14 @@ func mtEntry(key string, schema any, encs ...any) any {
 }
 
 var c06Keys = []string{"application/json", "application/json; charset=utf-8", "application/*", "*/*", "text/plain",
-	"text/*", "application", "application/problem+json", "application/json;charset=utf-8"}
+	"text/*", "application", "application/problem+json", "application/json;charset=utf-8", "application/json; charset=utf-8; profile=x"}
 
 var c06CTs = []string{"", "application/json", "application/json; charset=utf-8", "application/json;charset=utf-8",
 	"application/problem+json", "application/problem+json; charset=utf-8", "text/plain", "text/plain; charset=ascii",
-	"application", "application; q=1", "application/xml", "image/png", "APPLICATION/JSON", "/json", ";", "application/json ; charset=utf-8"}
+	"application", "application; q=1", "application/xml", "image/png", "APPLICATION/JSON", "/json", ";", "application/json ; charset=utf-8",
+	// several parameters: only the text before the FIRST ';' selects the decoder and the parameter-less level
+	"application/json; charset=utf-8; profile=x", "application/json;a=1;b=2", "text/plain; charset=ascii; format=flowed",
+	"application/json; charset=utf-8;", "application/json;;", "application/problem+json; v=1; charset=utf-8", "application; q=1; r=2"}
 
 func genC06(ctx *hx.Ctx, emit func(hx.Case)) {
 	r := ctx.Rng
@@ -965,15 +1099,20 @@ func genC06(ctx *hx.Ctx, emit func(hx.Case)) {
 	// JSON renderings and malformed JSON (regression of #36: trailing data)
 	js := sch("ty", "object", "props", []any{[]any{"a", sch("ty", "integer")}})
 	for _, text := range []string{`{"a":1} trailing`, `{"a":1}{"a":"x"}`, `{"a":1} {}`, `{"a":1}  `, ` {"a":1}`, `{"a":1}` + "\n", `{"a":1`, `{a:1}`, `x`, `[1,2`, `{"a":1,}`,
-		`{"a":"x","a":1}`, `{"a":1,"a":"x"}`, `1`, `"s"`, `null`, `[]`, `{"a":1.0}`, `{"a":1.5}`, `{"a":1e0}`, `nul`, `{"a":1}]`, `true false`} {
+		`{"a":"x","a":1}`, `{"a":1,"a":"x"}`, `1`, `"s"`, `null`, `[]`, `{"a":1.0}`, `{"a":1.5}`, `{"a":1e0}`, `nul`, `{"a":1}]`, `true false`,
+		`{"a":1}}`, `{"a":1} }`, `{"a":1}` + "\n]", `{"a":1},`, `{"a":1}:`, `{"a":1}"`, `[]]`, `1}`} {
 		for _, ct := range []string{"application/json", "application/problem+json; v=1"} {
 			emit(mkCase(true, []any{mtEntry("application/json", js), mtEntry("application/*", js)}, ct, text, false))
 		}
 	}
+	// (F) the YAML and CSV decoders of the registry
+	genYamlCsv(ctx, emit)
+	// (E) default injection (DefaultsSet is installed unless Options.SkipSettingDefaults)
+	genDefaults(ctx, emit)
 	// random stream
-	nr := 6000
+	nr := 10000
 	if ctx.Thorough() {
-		nr = 120000
+		nr = 300000
 	}
 	for i := 0; i < nr; i++ {
 		emit(randCase(r))
@@ -995,6 +1134,12 @@ func genMultipart(ctx *hx.Ctx, emit func(hx.Case)) {
 		{name: "a", ct: "application/xml", text: "<a/>"},
 		{name: "", ct: "", text: "anon", noDisp: true},
 		{name: "b", ct: "application/json", text: "6 7"},
+		{name: "b", ct: "application/json; charset=utf-8; x=1", text: `"w"`},
+		{name: "a", ct: "text/plain; charset=ascii; format=flowed", text: "hello"},
+		{name: "a", ct: "application/yaml", text: "k: 1\n"},
+		{name: "a", ct: "application/x-yaml; charset=utf-8", text: "k: [1"},
+		{name: "b", ct: "text/csv", text: "x,y\n1,2\n"},
+		{name: "a", ct: "application/octet-stream", text: "\x00\x01bin"},
 	}
 	aSchemas := []any{sch("ty", "string"), sch("ty", "integer"), sch("ty", "array", "items", sch("ty", "string")),
 		sch("ty", "array", "items", sch("ty", "integer")), sch("ty", "object", "props", []any{[]any{"k", sch("ty", "integer")}}), sch("ty", "string", "ro", true)}
@@ -1028,6 +1173,15 @@ func genMultipart(ctx *hx.Ctx, emit func(hx.Case)) {
 					text := renderMultipart(bd, l, false)
 					emit(mkCase(true, []any{mtEntry("multipart/form-data", s)}, mct, text, cnt%4 == 0))
 				}
+			}
+		}
+	}
+	{
+		se := sch("ty", "object", "props", []any{[]any{"a", sch("ty", "object", "props", []any{[]any{"k", sch("ty", "integer")}})}, []any{"b", sch("ty", "string")}})
+		for _, enc := range []any{map[string]any{"name": "a", "contentType": "application/json"}, map[string]any{"name": "a", "contentType": "text/plain"},
+			map[string]any{"name": "a", "contentType": "application/json, application/yaml", "style": "form"}, map[string]any{"name": "b", "contentType": "application/json", "explode": false}} {
+			for _, l := range [][]c06Part{{pool[2]}, {pool[0]}, {pool[2], pool[5]}, {pool[13]}, {pool[2], pool[6]}, {{name: "a", ct: "", text: `{"k":1}`}}} {
+				emit(mkCase(true, []any{mtEntry("multipart/form-data", se, enc)}, mct, renderMultipart(bd, l, false), false))
 			}
 		}
 	}
@@ -1074,6 +1228,347 @@ func genMultipart(ctx *hx.Ctx, emit func(hx.Case)) {
 	}
 }
 
+// genYamlCsv: application/yaml, application/x-yaml (first document of the text, numbers as int / float64) and
+// text/csv (the records, normalised, as one string).
+func genYamlCsv(ctx *hx.Ctx, emit func(hx.Case)) {
+	objS := sch("ty", "object", "props", []any{[]any{"a", sch("ty", "integer", "max", 5)}, []any{"b", sch("ty", "string", "ro", true)},
+		[]any{"c", sch("ty", "array", "items", sch("ty", "number"))}, []any{"d", sch("ty", "integer", "dflt", jI(1))}}, "required", []any{"a"})
+	schemas := []any{objS, sch("ty", "string", "minLen", 2), sch("ty", "integer"), sch("ty", "array", "items", sch("ty", "integer")), sch("nullable", true), nil}
+	yamls := []string{"a: 1\n", "a: 1\nb: x\n", "a: 7\n", "a: 1\nc: [1, 2.5]\n", "a: 1\nc:\n  - 1\n  - x\n", `{"a": 1}`, `{"a":1,"zz":{"k":[true,null]}}`,
+		"a: 1\n---\na: x\n", "a: [1", "\tbad", "a: 1\na: 2\n", "hello", "12", "- 1\n- 2\n", "~", "a: null\n", "a: 1.0\n", "a: '1'\n", "a: -3\nd: 4\n", "# only a comment\n", " "}
+	for _, ct := range []string{"application/yaml", "application/x-yaml", "application/yaml; charset=utf-8"} {
+		for _, key := range []string{"application/yaml", "application/x-yaml", "*/*"} {
+			for _, s := range schemas {
+				for _, y := range yamls {
+					for _, opt := range []int{0, 1, 2} { // plain, ExcludeReadOnlyValidations, SkipSettingDefaults
+						b := c06Body(y, ct)
+						if c06HasX(b["yaml"]) {
+							continue
+						}
+						c := hx.Case{"required": true, "content": []any{mtEntry(key, s)}, "ct": ct, "exro": opt == 1, "body": b}
+						if opt == 2 {
+							c["skipDefaults"] = true
+						}
+						emit(c)
+					}
+				}
+			}
+		}
+	}
+	csvs := []string{"a,b\n1,2\n", "a,b\n1\n", "x", "\"q\"\"x\",2\n", "a,\"b\nc\"\n", "a,b", "\"unterminated\n", "\n\n", "1\n2\n3\n", "é,ü\r\n1,2\r\n"}
+	for _, ct := range []string{"text/csv", "text/csv; header=present", "text/csv; charset=utf-8; header=absent"} {
+		for _, key := range []string{"text/csv", "text/*", "*/*"} {
+			for _, s := range []any{sch("ty", "string"), sch("ty", "string", "minLen", 5), sch("ty", "integer"), sch("ty", "object"), nil} {
+				for _, t := range csvs {
+					emit(hx.Case{"required": true, "content": []any{mtEntry(key, s)}, "ct": ct, "exro": false, "body": c06Body(t, ct)})
+				}
+			}
+		}
+	}
+}
+
+// genDefaults: schemas with `default` on plain / readOnly / writeOnly properties, both settings of
+// SkipSettingDefaults and of ExcludeReadOnlyValidations.
+func genDefaults(ctx *hx.Ctx, emit func(hx.Case)) {
+	J := "application/json"
+	mk := func(s any, v any, exro, skip bool) hx.Case {
+		c := mkCase(true, []any{mtEntry(J, s)}, J, renderJ(v, false, false), exro)
+		c["skipDefaults"] = skip
+		return c
+	}
+	both := func(s any, v any) {
+		for _, exro := range []bool{false, true} {
+			for _, skip := range []bool{false, true} {
+				emit(mk(s, v, exro, skip))
+			}
+		}
+	}
+	cnt := 0
+	// (E1) one object schema: a × {plain, readOnly, writeOnly} × type × default × nullable; b integer with/without default;
+	// every required subset; additionalProperties; 4 × 2 values
+	aTys := []any{nil, "integer", "string"}
+	dflts := []any{nil, jI(1), jS("x")}
+	reqSets := [][]any{{}, {"a"}, {"b"}, {"a", "b"}}
+	aVals := []any{"absent", nil, jS("x"), jI(1)}
+	for kind := 0; kind < 3; kind++ {
+		for _, aty := range aTys {
+			for _, ad := range dflts {
+				for nullable := 0; nullable < 2; nullable++ {
+					for bd := 0; bd < 2; bd++ {
+						for _, rs := range reqSets {
+							for addl := 0; addl < 2; addl++ {
+								pa := sch("ro", kind == 1, "wo", kind == 2, "nullable", nullable == 1)
+								if aty != nil {
+									pa["ty"] = aty
+								}
+								if ad != nil {
+									pa["dflt"] = ad
+								}
+								pb := sch("ty", "integer")
+								if bd == 1 {
+									pb["dflt"] = jI(2)
+								}
+								s := sch("ty", "object", "props", []any{[]any{"a", pa}, []any{"b", pb}}, "required", rs)
+								if addl == 1 {
+									s["addl"] = false
+								}
+								for vi := 0; vi < 8; vi++ {
+									cnt++
+									if !ctx.Thorough() && cnt%4 != 0 {
+										continue
+									}
+									kvs := []any{}
+									if av := aVals[vi&3]; av != "absent" {
+										kvs = append(kvs, "a", av)
+									}
+									if vi&4 != 0 {
+										kvs = append(kvs, "b", jI(5))
+									}
+									both(s, jO(kvs...))
+								}
+							}
+						}
+					}
+				}
+			}
+		}
+	}
+	// (E1b) minProperties / maxProperties count the members AFTER the defaults were injected
+	for minP := 0; minP < 3; minP++ {
+		for maxP := -1; maxP < 3; maxP++ {
+			for kind := 0; kind < 3; kind++ {
+				for ad := 0; ad < 2; ad++ {
+					pa := sch("ty", "integer", "ro", kind == 1, "wo", kind == 2)
+					if ad == 1 {
+						pa["dflt"] = jI(1)
+					}
+					s := sch("ty", "object", "props", []any{[]any{"a", pa}, []any{"b", sch("ty", "integer")}})
+					if minP > 0 {
+						s["minProps"] = minP
+					}
+					if maxP >= 0 {
+						s["maxProps"] = maxP
+					}
+					for _, v := range []any{jO(), jO("a", jI(3)), jO("b", jI(2)), jO("a", jI(3), "b", jI(2)), jO("b", jI(2), "c", jI(2)), jO("c", nil), jS("x"), jA()} {
+						both(s, v)
+					}
+					both(sch("allOf", []any{s}), jO("b", jI(2)))
+					both(sch("ty", "object", "props", []any{[]any{"o", s}}), jO("o", jO("b", jI(2))))
+				}
+			}
+		}
+	}
+	// (E2) defaults declared inside composition members; siblings that require / forbid / re-declare the property
+	for _, kw := range []string{"allOf", "anyOf", "oneOf"} {
+		for kind := 0; kind < 3; kind++ {
+			for _, ad := range []any{jI(1), jS("x")} {
+				for mreq := 0; mreq < 2; mreq++ {
+					for second := 0; second < 7; second++ {
+						for top := 0; top < 3; top++ { // 0 nothing, 1 required a, 2 additionalProperties false
+							pa := sch("ty", "integer", "ro", kind == 1, "wo", kind == 2, "dflt", ad)
+							m1 := sch("props", []any{[]any{"a", pa}})
+							if mreq == 1 {
+								m1["required"] = []any{"a"}
+							}
+							members := []any{m1}
+							switch second {
+							case 1:
+								members = append(members, sch("required", []any{"a"}))
+							case 2:
+								members = append(members, sch("props", []any{[]any{"a", sch("ro", true)}}))
+							case 3:
+								members = append(members, sch("props", []any{[]any{"b", sch("ty", "integer")}}, "addl", false))
+							case 4:
+								members = append(members, sch("props", []any{[]any{"b", sch("ty", "integer", "dflt", jI(2))}}, "required", []any{"b"}))
+							case 5:
+								members = append([]any{sch("required", []any{"a"})}, members...)
+							case 6:
+								members = append(members, sch("props", []any{[]any{"a", sch("ty", "string")}}))
+							}
+							s := sch("ty", "object", kw, members)
+							switch top {
+							case 1:
+								s["required"] = []any{"a"}
+							case 2:
+								s["addl"] = false
+								s["props"] = []any{[]any{"b", sch("ty", "integer")}}
+							}
+							for _, v := range []any{jO(), jO("a", jI(3)), jO("b", jI(2)), jO("a", jI(3), "b", jI(2)), jO("a", jS("y"))} {
+								cnt++
+								if !ctx.Thorough() && cnt%3 != 0 {
+									continue
+								}
+								both(s, v)
+							}
+						}
+					}
+				}
+			}
+		}
+	}
+	// (E3) nested defaults: an object default that is itself completed, items with defaults, a default that carries a
+	// read-only member, defaults at two levels, a property schema that is a composition with a default on it
+	{
+		inner := sch("ty", "object", "props", []any{[]any{"k", sch("ty", "integer")}, []any{"m", sch("ty", "string", "dflt", jS("q"))}}, "required", []any{"m"})
+		withD := func(d any) map[string]any {
+			x := sch()
+			for k, v := range inner {
+				x[k] = v
+			}
+			x["dflt"] = d
+			return x
+		}
+		roIn := sch("ty", "object", "props", []any{[]any{"id", sch("ty", "integer", "ro", true)}}, "dflt", jO("id", jI(1)))
+		schemas := []any{
+			sch("ty", "object", "props", []any{[]any{"o", withD(jO("k", jI(1)))}}),
+			sch("ty", "object", "props", []any{[]any{"o", withD(jO("k", jS("bad")))}}),
+			sch("ty", "object", "props", []any{[]any{"o", withD(jO())}}, "required", []any{"o"}),
+			sch("ty", "object", "props", []any{[]any{"o", inner}}),
+			sch("ty", "array", "items", inner),
+			sch("ty", "object", "props", []any{[]any{"l", sch("ty", "array", "items", inner, "dflt", jA(jO(), jO("k", jI(2))))}}),
+			sch("ty", "object", "props", []any{[]any{"o", roIn}}),
+			sch("ty", "object", "props", []any{[]any{"p", sch("anyOf", []any{sch("ty", "integer"), sch("ty", "string")}, "dflt", jI(1))}}),
+			sch("ty", "object", "props", []any{[]any{"p", sch("oneOf", []any{sch("ty", "integer"), sch("ty", "number")}, "dflt", jI(1))}}),
+			sch("ty", "object", "props", []any{[]any{"a", sch("ty", "integer", "dflt", jI(1), "max", 0)}}),
+			sch("ty", "object", "props", []any{[]any{"a", sch("ty", "string", "dflt", jS("x"), "minLen", 2, "ro", true)}}, "required", []any{"a"}),
+			sch("props", []any{[]any{"a", sch("dflt", jI(1))}}),
+			sch("ty", "object", "not", sch("required", []any{"a"}), "props", []any{[]any{"a", sch("dflt", jI(1))}}),
+			sch("ty", "object", "allOf", []any{sch("props", []any{[]any{"a", sch("dflt", jI(1))}}), sch("not", sch("required", []any{"a"}))}),
+			sch("ty", "object", "oneOf", []any{sch("required", []any{"a"}, "props", []any{[]any{"a", sch("dflt", jI(1))}}), sch("required", []any{"b"}, "props", []any{[]any{"b", sch("dflt", jI(2))}})}),
+			sch("ty", "object", "anyOf", []any{sch("required", []any{"z"}, "props", []any{[]any{"a", sch("dflt", jI(1))}}), sch("props", []any{[]any{"b", sch("dflt", jI(2))}})}),
+			sch("ty", "object", "props", []any{[]any{"a", sch("nullable", true, "dflt", jI(1))}}, "required", []any{"a"}),
+		}
+		values := []any{jO(), jO("o", jO()), jO("o", jO("k", jI(3))), jO("o", jO("m", jS("z"))), jO("o", nil), jA(), jA(jO()), jA(jO("k", jI(1)), jO("m", jS("w"))),
+			jO("l", jA(jO())), jO("p", jS("s")), jO("a", jI(5)), jO("a", nil), jO("a", jS("long")), jO("b", jI(1)), jO("a", jI(1), "b", jI(2)), jS("x"), nil}
+		for _, s := range schemas {
+			for _, v := range values {
+				both(s, v)
+			}
+		}
+	}
+	// (E4) media types without a body encoder: urlencoded and multipart bodies against flat schemas with defaults
+	{
+		fct := "application/x-www-form-urlencoded"
+		bd := "XbX"
+		mct := "multipart/form-data; boundary=" + bd
+		for kind := 0; kind < 3; kind++ {
+			for _, ad := range []any{nil, jI(1), jS("x")} {
+				for layout := 0; layout < 3; layout++ { // own property, inside allOf, inside anyOf
+					for rq := 0; rq < 2; rq++ {
+						pa := sch("ty", "integer", "ro", kind == 1, "wo", kind == 2)
+						if ad != nil {
+							pa["dflt"] = ad
+						}
+						pb := sch("ty", "string")
+						s := sch("ty", "object", "props", []any{[]any{"a", pa}, []any{"b", pb}})
+						switch layout {
+						case 1:
+							s = sch("ty", "object", "allOf", []any{sch("props", []any{[]any{"a", pa}}), sch("props", []any{[]any{"b", pb}})})
+						case 2:
+							s = sch("ty", "object", "anyOf", []any{sch("props", []any{[]any{"a", pa}})}, "props", []any{[]any{"b", pb}})
+						}
+						if rq == 1 {
+							s["required"] = []any{"a"}
+						}
+						for _, text := range []string{"b=x", "a=2&b=x", "a=2", "a=&b=x", "a=x&b=y"} {
+							for _, exro := range []bool{false, true} {
+								for _, skip := range []bool{false, true} {
+									c := mkCase(true, []any{mtEntry(fct, s)}, fct, text, exro)
+									c["skipDefaults"] = skip
+									emit(c)
+								}
+							}
+						}
+						if layout == 2 {
+							continue // multipart looks only at allOf members / own properties
+						}
+						for _, parts := range [][]c06Part{{{name: "b", text: "x"}}, {{name: "a", ct: "application/json", text: "2"}, {name: "b", text: "x"}}, {{name: "a", ct: "application/json", text: "2"}}, {}} {
+							for _, exro := range []bool{false, true} {
+								for _, skip := range []bool{false, true} {
+									c := mkCase(true, []any{mtEntry("multipart/form-data", s)}, mct, renderMultipart(bd, parts, false), exro)
+									c["skipDefaults"] = skip
+									emit(c)
+								}
+							}
+						}
+					}
+				}
+			}
+		}
+		// text/plain and octet-stream: the value is a string, nothing can be injected
+		for _, ct := range []string{"text/plain", "application/octet-stream"} {
+			for _, s := range []any{sch("ty", "string", "dflt", jS("d")), sch("props", []any{[]any{"a", sch("dflt", jI(1))}}), sch("ty", "object", "props", []any{[]any{"a", sch("dflt", jI(1))}})} {
+				for _, skip := range []bool{false, true} {
+					c := mkCase(true, []any{mtEntry(ct, s)}, ct, "abc", false)
+					c["skipDefaults"] = skip
+					emit(c)
+				}
+			}
+		}
+		// the six JSON media types have an encoder each
+		for _, ct := range []string{"application/json", "application/json-patch+json", "application/ld+json", "application/hal+json", "application/vnd.api+json", "application/problem+json", "application/problem+json; charset=utf-8"} {
+			s := sch("ty", "object", "props", []any{[]any{"a", sch("ty", "integer", "dflt", jI(1))}})
+			for _, text := range []string{"{}", `{"a":2}`, `{"a":"x"}`} {
+				emit(mkCase(true, []any{mtEntry("*/*", s)}, ct, text, false))
+			}
+		}
+	}
+}
+
+// c06StripDflt removes every `default` (used below `not`: outside the model).
+func c06StripDflt(s map[string]any) map[string]any {
+	out := map[string]any{}
+	for k, v := range s {
+		switch k {
+		case "dflt":
+		case "props":
+			l := []any{}
+			for _, kv := range jlist(v) {
+				p := jlist(kv)
+				if pm, ok := p[1].(map[string]any); ok {
+					l = append(l, []any{p[0], c06StripDflt(pm)})
+				} else {
+					l = append(l, kv)
+				}
+			}
+			out[k] = l
+		case "items", "not":
+			if m, ok := v.(map[string]any); ok {
+				out[k] = c06StripDflt(m)
+			} else {
+				out[k] = v
+			}
+		case "oneOf", "anyOf", "allOf":
+			l := []any{}
+			for _, x := range jlist(v) {
+				if m, ok := x.(map[string]any); ok {
+					l = append(l, c06StripDflt(m))
+				} else {
+					l = append(l, x)
+				}
+			}
+			out[k] = l
+		default:
+			out[k] = v
+		}
+	}
+	return out
+}
+
+// c06AddDflt gives a property schema a default: mostly one directed by the schema (conforming unless mutated),
+// sometimes an arbitrary leaf.
+func c06AddDflt(r *hx.Rng, p map[string]any) {
+	var d any
+	if r.Chance(75) {
+		d = c06RandValue(r, c06StripDflt(p), 2)
+	} else {
+		d = randLeaf(r)
+	}
+	if d != nil {
+		p["dflt"] = d
+	}
+}
+
 // ---- random stream
 
 var c06Names = []string{"a", "b", "c", "d"}
@@ -1113,6 +1608,9 @@ func c06RandSchema(r *hx.Rng, depth int) map[string]any {
 				} else if r.Chance(20) {
 					p["wo"] = true
 				}
+				if r.Chance(22) {
+					c06AddDflt(r, p)
+				}
 				props = append(props, []any{n, p})
 			}
 		}
@@ -1126,6 +1624,12 @@ func c06RandSchema(r *hx.Rng, depth int) map[string]any {
 		s["required"] = req
 		if r.Chance(40) {
 			s["addl"] = r.Bool()
+		}
+		if r.Chance(12) {
+			s["minProps"] = 1 + r.Intn(2)
+		}
+		if r.Chance(12) {
+			s["maxProps"] = r.Intn(4)
 		}
 	}
 	if depth > 0 && r.Chance(28) {
@@ -1146,6 +1650,9 @@ func c06RandSchema(r *hx.Rng, depth int) map[string]any {
 							p["ro"] = true
 						} else if r.Chance(15) {
 							p["wo"] = true
+						}
+						if r.Chance(25) {
+							c06AddDflt(r, p)
 						}
 						props = append(props, []any{n, p})
 					}
@@ -1169,7 +1676,7 @@ func c06RandSchema(r *hx.Rng, depth int) map[string]any {
 		}
 		kw := hx.Pick(r, []string{"allOf", "anyOf", "oneOf", "allOf", "anyOf", "oneOf", "not"})
 		if kw == "not" {
-			s["not"] = member()
+			s["not"] = c06StripDflt(member()) // defaults below `not` are outside the model
 		} else {
 			ms := []any{}
 			for i, k := 0, 1+r.Intn(3); i < k; i++ {
@@ -1315,6 +1822,9 @@ func randCT(r *hx.Rng, keys []string) string {
 			if r.Chance(25) {
 				return k + "; charset=utf-8"
 			}
+			if r.Chance(12) {
+				return k + hx.Pick(r, []string{"; charset=utf-8; profile=x", ";a=1;b=2", "; charset=utf-8; v=1; w=2", "; q=1;"})
+			}
 			return k
 		}
 	}
@@ -1325,6 +1835,9 @@ func randCase(r *hx.Rng) hx.Case {
 	c := randCase0(r)
 	if r.Chance(20) {
 		c["multi"] = true // MultiError: the verdict must not depend on it
+	}
+	if r.Chance(30) {
+		c["skipDefaults"] = true
 	}
 	if r.Chance(5) && jstr(c["body"].(map[string]any), "text") == "" {
 		c["emptyReader"] = true
@@ -1352,7 +1865,7 @@ func randCase0(r *hx.Rng) hx.Case {
 		text := renderJ(v, r.Chance(20), r.Chance(10))
 		switch r.Intn(25) {
 		case 0:
-			text += " x"
+			text += hx.Pick(r, []string{" x", "}", "]", " }", "\n]", ",", "{}", " null", "\"", " 1"})
 		case 1:
 			text = text[:len(text)/2]
 		case 2:
@@ -1421,6 +1934,16 @@ func randCase0(r *hx.Rng) hx.Case {
 					p = sch("oneOf", []any{other, p})
 				default:
 					p = sch("allOf", []any{p})
+				}
+			}
+			if r.Chance(15) {
+				switch r.Intn(3) {
+				case 0:
+					p["dflt"] = jS("d")
+				case 1:
+					p["dflt"] = jI(r.Intn(5))
+				default:
+					p["dflt"] = jA(jI(1))
 				}
 			}
 			props = append(props, []any{n, p})
@@ -1515,6 +2038,8 @@ func randCase0(r *hx.Rng) hx.Case {
 		ct := fct
 		if r.Chance(20) {
 			ct += "; charset=utf-8"
+		} else if r.Chance(10) {
+			ct += "; charset=utf-8; v=1"
 		}
 		key := hx.Pick(r, []string{fct, fct, "application/*", "*/*"})
 		return mkCase(r.Bool(), []any{mtEntry(key, s, encs...)}, ct, text, exro)
@@ -1535,6 +2060,9 @@ func randCase0(r *hx.Rng) hx.Case {
 			}
 			if r.Chance(20) {
 				p["ro"] = true
+			}
+			if r.Chance(15) {
+				p["dflt"] = hx.Pick(r, []any{jS("d"), jI(3), jO("k", jI(1)), jA(jS("z"))})
 			}
 			props = append(props, []any{n, p})
 			if r.Chance(30) {
@@ -1581,6 +2109,9 @@ func randCase0(r *hx.Rng) hx.Case {
 		}
 		text := renderMultipart(bd, parts, r.Chance(4))
 		ct := "multipart/form-data; boundary=" + bd
+		if r.Chance(15) {
+			ct = hx.Pick(r, []string{"multipart/form-data; charset=utf-8; boundary=" + bd, "multipart/form-data; boundary=" + bd + "; charset=utf-8", "multipart/form-data; a=1; boundary=" + bd + "; b=2"})
+		}
 		key := hx.Pick(r, []string{"multipart/form-data", "multipart/form-data", "multipart/*", "*/*"})
 		return mkCase(r.Bool(), []any{mtEntry(key, s)}, ct, text, exro)
 	}
@@ -1644,6 +2175,16 @@ func shrinkC06(c hx.Case) []hx.Case {
 		x["exro"] = false
 		out = append(out, x)
 	}
+	if jbool(c, "skipDefaults") {
+		x := cloneCase(c)
+		delete(x, "skipDefaults")
+		out = append(out, x)
+	}
+	if jbool(c, "multi") {
+		x := cloneCase(c)
+		delete(x, "multi")
+		out = append(out, x)
+	}
 	if i := strings.IndexByte(ct, ';'); i >= 0 && c06Base(ct) != "multipart/form-data" {
 		x := cloneCase(c)
 		x["ct"] = ct[:i]
@@ -1688,7 +2229,7 @@ func c06ShrinkSchema(s map[string]any) []map[string]any {
 			out = append(out, x)
 		}
 	}
-	for _, k := range []string{"nullable", "ro", "wo", "minLen", "max", "addl"} {
+	for _, k := range []string{"nullable", "ro", "wo", "minLen", "max", "addl", "dflt", "minProps", "maxProps"} {
 		if v, ok := s[k]; ok && v != nil && v != false {
 			x := cp()
 			delete(x, k)
